@@ -1778,7 +1778,10 @@ class UserSpaceImpl(*_user_space_impl_base):
                     raise RuntimeError("must not happen")
 
             elif name in self.cells:
-                if self.cells[name].is_scalar():
+                if not self.cells[name].is_cached:
+                    raise ValueError(
+                        "cannot set value because is_cached is False")
+                elif self.cells[name].is_scalar():
                     self.cells[name].set_value((), value)
                 else:
                     raise AttributeError("Cells '%s' is not a scalar." % name)
